@@ -19,11 +19,11 @@ Families
            simulate() is asked for (n_paths, maturity, init_state) under no_grad.
 
 Criteria relying on the default search (HedgeLoss.cash = bisect over [min, max]):
-IsoelasticLoss, OCE(exponential utility) and two user subclasses (mean-variance with
+IsoelasticLoss, OCE(exponential utility) and user subclasses (mean-variance with
 gamma * range <= 1 so that the certainty equivalent is inside [min, max]; the non-smooth
 blend -(mean + min)/2, the worst case -min and a tail mean (user expected shortfall), whose
 certainty equivalent coincides with the worst outcome, and the risk-seeking mirror -(mean + max)/2 for which "cash <= mean" is
-not demanded).  Finding 8 is classified from the input: the whole sample constant
+not demanded).  Finding 8 (fixed in /repo; classes kept to name a regression) is classified from the input: the whole sample constant
 (-> ValueError "lower < upper") resp. more than one column (-> candidates are reduced along
 dim 0 as if they were paths); any failure on a non-constant single-column sample keeps a
 different class.
